@@ -66,7 +66,7 @@ class Floor(object):
 
 def obligations(pid, tier, only=None, cfgs=None):
     obls = {}
-    for c in C.CONFIGS:
+    for c in C.CONFIGS + (C.EMULATED if (cfgs and any(x.startswith('emu') for x in cfgs)) else []):
         if cfgs and c.name not in cfgs:
             continue
         if pid == 'C17' and c.name not in ('sse2', 'avx2', 'avx512f'):
